@@ -24,6 +24,65 @@ def p_indices(func):
     return out
 
 
+def p_flow(func):
+    """indices i whose p[i] flows into p[0], through local names (flow-insensitive closure over the action body)"""
+    parg = func.args.args[-1].arg
+
+    def direct(e):
+        out = set()
+        for n in ast.walk(e):
+            if isinstance(n, ast.Subscript) and isinstance(n.value, ast.Name) and n.value.id == parg and isinstance(n.ctx, ast.Load) and isinstance(n.slice, ast.Constant) and isinstance(n.slice.value, int) and n.slice.value > 0:
+                out.add(n.slice.value)
+        return out
+
+    names = {}
+    p0 = set()
+    changed = True
+
+    def of(e):
+        out = direct(e)
+        for n in ast.walk(e):
+            if isinstance(n, ast.Name) and n.id in names:
+                out |= names[n.id]
+        return out
+
+    rounds = 0
+    while changed and rounds < 10:
+        rounds += 1
+        changed = False
+        for n in ast.walk(func):
+            tgt_vals = []
+            if isinstance(n, ast.Assign):
+                for t in n.targets:
+                    tgt_vals.append((t, n.value))
+            elif isinstance(n, ast.AugAssign):
+                tgt_vals.append((n.target, n.value))
+            elif isinstance(n, ast.For):
+                tgt_vals.append((n.target, n.iter))
+            elif isinstance(n, ast.Call) and isinstance(n.func, ast.Attribute) and isinstance(n.func.value, ast.Name) and n.func.attr in ("append", "extend", "update", "insert", "add", "setdefault"):
+                for a in list(n.args) + [k.value for k in n.keywords]:
+                    tgt_vals.append((n.func.value, a))
+            for t, v in tgt_vals:
+                src = of(v)
+                if isinstance(t, ast.Subscript) and isinstance(t.value, ast.Name) and t.value.id == parg:
+                    if isinstance(t.slice, ast.Constant) and t.slice.value == 0 and not src <= p0:
+                        p0 |= src
+                        changed = True
+                    continue
+                base = t
+                extra = set()
+                while isinstance(base, (ast.Subscript, ast.Attribute)):
+                    if isinstance(base, ast.Subscript):
+                        extra |= of(base.slice)
+                    base = base.value
+                for x in ([base] if isinstance(base, ast.Name) else [y for y in ast.walk(t) if isinstance(y, ast.Name)]):
+                    cur = names.setdefault(x.id, set())
+                    if not (src | extra) <= cur:
+                        cur |= src | extra
+                        changed = True
+    return p0
+
+
 def p0_value(func):
     parg = func.args.args[-1].arg
     for n in ast.walk(func):
@@ -152,22 +211,22 @@ def run(ctx, idx):
         if v is None:
             ctx.violate("C10.d", con, rel, f.lineno, "action never assigns p[0]")
             continue
-        used = [i for i, n in p_indices(f) if any(n is x for x in ast.walk(v))]
+        flow = p_flow(f)
+        direct = [i for i, n in p_indices(f) if any(n is x for x in ast.walk(v))]
+        via_temps = bool(flow - set(direct))
         probs = []
         for p in prods:
             for i, sym in enumerate(p.rhs, 1):
-                cnt = used.count(i)
                 if sym in VALUELESS:
-                    if cnt:
+                    if i in flow:
                         probs.append("punctuation %s (p[%d]) flows into the value" % (sym, i))
                 elif sym in ("TRUE", "FALSE", "ID", "INT", "FLOAT", "STRING", "PLAIN_STRING") or sym in nts:
-                    if cnt == 0:
+                    if i not in flow:
                         probs.append("`%s`: the value of %s (p[%d]) is dropped" % (p, sym, i))
-                    elif cnt > 1:
-                        probs.append("`%s`: p[%d] is used %d times" % (p, i, cnt))
-        # order of list building: [p[1]] + p[3]
+                    elif not via_temps and direct.count(i) > 1:
+                        probs.append("`%s`: p[%d] is used %d times" % (p, i, direct.count(i)))
+        # order of list building: [p[1]] + p[3]   (only decidable when p[0] is written as a sum directly)
         if isinstance(v, ast.BinOp) and isinstance(v.op, ast.Add):
-            idxs = [i for i, n in p_indices(f) if any(n is x for x in ast.walk(v))]
             flat = []
 
             def walk_add(e):
@@ -184,7 +243,7 @@ def run(ctx, idx):
         if probs:
             ctx.violate("C10.d", con, rel, f.lineno, "; ".join(probs[:3]))
         else:
-            ctx.hold("C10.d", con, rel, f.lineno, "every value-carrying symbol used once, in order")
+            ctx.hold("C10.d", con, rel, f.lineno, "every value-carrying symbol reaches p[0]%s" % ("" if via_temps else ", once, in order"))
     # ------------------------------------------------------------------ e
     want = {
         "argument_list": [["argument", "COMMA"], ["argument"], ["argument", "COMMA", "argument_list"]],
